@@ -7,7 +7,7 @@ From OvldV Require Import Model.Order Model.Ty Model.Resolve Proofs.TyEq Proofs.
 Definition lookup_cs (cs : list cand) : outcome :=
   match sort_desc cs with
   | [] => ONoMethod
-  | c1 :: rest => rank_outcome (c1 :: filter (fun c2 => negb (dominates c1 c2)) rest)
+  | c1 :: rest => rank_outcome (c1 :: grp [c1] rest)
   end.
 
 (* ---- sortedness and commutation of the stable sort with filtering ---- *)
@@ -70,13 +70,14 @@ Lemma pull_chain_next : forall n scs caller rest,
   chain_next (pull n scs []) caller =
     match rest with
     | [] => None
-    | c2 :: r2 => Some (rank_outcome (c2 :: filter (fun c3 => negb (dominates c2 c3)) r2))
+    | c2 :: r2 => Some (rank_outcome (c2 :: grp [c2] r2))
     end.
 Proof.
   induction n as [|n IH]; intros scs caller rest Hlen Hb.
   - destruct scs; [discriminate|simpl in Hlen; lia].
   - destruct scs as [|c1 r1]; [discriminate|]. simpl in Hlen. rewrite pull_first.
     simpl in Hb. destruct (filter (fun c2 => negb (dominates c1 c2)) r1) eqn:Ef; [|discriminate].
+    rewrite (proj2 (grp_single_nil_iff c1 r1) Ef).
     cbn [map chain_next]. fold (cid c1).
     destruct (Nat.eqb (cid c1) caller) eqn:Ec.
     + injection Hb as <-. destruct r1 as [|c2 r2]; [now rewrite pull_nil|].
@@ -87,7 +88,7 @@ Qed.
 Definition lookup_sorted (rest : list cand) : outcome :=
   match rest with
   | [] => ONoMethod
-  | c2 :: r2 => rank_outcome (c2 :: filter (fun c3 => negb (dominates c2 c3)) r2)
+  | c2 :: r2 => rank_outcome (c2 :: grp [c2] r2)
   end.
 
 Lemma lookup_cs_sorted cs : lookup_cs cs = lookup_sorted (sort_desc cs).
@@ -111,6 +112,7 @@ Proof.
   - destruct scs; [discriminate|simpl in Hlen; lia].
   - destruct scs as [|c1 r1]; [discriminate|]. simpl in Hlen. rewrite pull_first.
     simpl in Hb. destruct (filter (fun c2 => negb (dominates c1 c2)) r1) eqn:Ef; [|discriminate].
+    rewrite (proj2 (grp_single_nil_iff c1 r1) Ef).
     cbn [existsb map]. destruct (Nat.eqb (cid c1) caller) eqn:Ec; [reflexivity|].
     simpl. eapply IH; [lia|exact Hb].
 Qed.
@@ -135,6 +137,7 @@ Section Hier.
     destruct (sort_desc cs) as [|c1 r1] eqn:Es; [discriminate|].
     rewrite pull_first in *.
     assert (Hf : filter (fun c2 => negb (dominates c1 c2)) r1 = []) by (simpl in Hb; destruct (filter _ r1); [reflexivity|discriminate]).
+    apply grp_single_nil_iff in Hf.
     rewrite Hf in *. cbn [rank_outcome map] in *. unfold cid in *.
     rewrite Hin. cbn [negb]. rewrite Hch. destruct rest; reflexivity.
   Qed.
@@ -175,7 +178,7 @@ Section Hier.
       simpl in Hg. destruct (filter _ scs) as [|c1 r1] eqn:Ef; [destruct Hg|].
       assert (Hsubf : forall y, In y (c1 :: r1) -> In y scs) by (intros y Hy; rewrite <- Ef in Hy; apply filter_In in Hy; tauto).
       destruct Hg as [<-|Hg].
-      - destruct Hx as [<-|Hx]; [apply Hsubf; now left|]. apply filter_In in Hx. apply Hsubf. right. tauto.
+      - destruct Hx as [<-|Hx]; [apply Hsubf; now left|]. apply grp_sub in Hx. apply Hsubf. now right.
       - apply Hsubf. right. eapply IH; eauto. }
     rewrite <- Ep in Hgr. eapply Hsub; eauto.
   Qed.
@@ -188,7 +191,7 @@ Proof.
   simpl in Hg. destruct (filter _ scs) as [|c1 r1] eqn:Ef; [destruct Hg|].
   assert (Hsubf : forall y, In y (c1 :: r1) -> In y scs) by (intros y Hy; rewrite <- Ef in Hy; apply filter_In in Hy; tauto).
   destruct Hg as [<-|Hg].
-  - destruct Hx as [<-|Hx]; [apply Hsubf; now left|]. apply filter_In in Hx. apply Hsubf. right. tauto.
+  - destruct Hx as [<-|Hx]; [apply Hsubf; now left|]. apply grp_sub in Hx. apply Hsubf. now right.
   - apply Hsubf. right. eapply IH; eauto.
 Qed.
 
